@@ -86,6 +86,9 @@ type opRig struct {
 	op    *shell_operator.ShellOperator
 	state string
 	runs  int
+	// class "sync": the numbers of the real monitor ids, the hooks with a v0 config
+	monNum map[string]int
+	v0     map[int]bool
 }
 
 var theRig *opRig
@@ -249,7 +252,19 @@ func (rg *opRig) state0(in Input) [][]Task {
 					o.Ctxs = append(o.Ctxs, unCtx(bc))
 				}
 				for _, m := range hm.MonitorIDs {
-					o.Mids = append(o.Mids, atoi(m))
+					if k, ok := rg.monNum[m]; ok {
+						o.Mids = append(o.Mids, k)
+					} else {
+						o.Mids = append(o.Mids, atoi(m))
+					}
+				}
+				o.Kube = hm.BindingType == htypes.OnKubernetesEvent
+				o.Exec = hm.ExecuteOnSynchronization
+				o.Group = 99
+				for i, g := range groups {
+					if g == hm.Group {
+						o.Group = i
+					}
 				}
 			} else {
 				o.NoMeta = true
@@ -272,9 +287,10 @@ func (rg *opRig) newRuns(st Step) []RunObs {
 		who, _ := os.ReadFile(filepath.Join(rg.state, fmt.Sprintf("who.%d", k)))
 		r := RunObs{Hook: hookIndex(strings.TrimSpace(string(who))), Ctxs: []Ctx{}}
 		var ctxs []struct {
-			Binding   string `json:"binding"`
-			Type      string `json:"type"`
-			GroupName string `json:"groupName"`
+			Binding       string  `json:"binding"`
+			Type          string  `json:"type"`
+			GroupName     string  `json:"groupName"`
+			ResourceEvent *string `json:"resourceEvent"` // v0 format, kubernetes contexts only
 		}
 		b, _ := os.ReadFile(filepath.Join(rg.state, fmt.Sprintf("ctx.%d", k)))
 		if err := json.Unmarshal(b, &ctxs); err != nil {
@@ -283,8 +299,18 @@ func (rg *opRig) newRuns(st Step) []RunObs {
 		for _, c := range ctxs {
 			x := Ctx{Tag: 999999, Group: 99}
 			switch {
-			case strings.HasPrefix(c.Binding, "c"):
-				if v, err := strconv.Atoi(c.Binding[1:]); err == nil {
+			case rg.v0[r.Hook] && (strings.HasPrefix(c.Binding, "c") || strings.HasPrefix(c.Binding, "k")):
+				// the v0 format shows the binding name (and resourceEvent): no type, no group - the tasks of
+				// v0 hooks carry no group (the v0 config has none)
+				if v, err := strconv.Atoi(c.Binding[1:]); err == nil && c.Type == "" && c.GroupName == "" {
+					x = Ctx{Tag: v, Group: 0, Sync: c.Binding[0] == 'k'}
+				}
+			case strings.HasPrefix(c.Binding, "c"), strings.HasPrefix(c.Binding, "k"):
+				// c<tag>: a context made by the harness, never a Synchronization; k<tag>: the context of a
+				// real binding - only its Synchronization context exists in a session.  A context with a
+				// group is shown as type Group, otherwise the type tells Synchronization from the rest.
+				x.Sync = c.Binding[0] == 'k'
+				if v, err := strconv.Atoi(c.Binding[1:]); err == nil && (c.Type == "Group" || (c.Type == "Synchronization") == x.Sync) {
 					x.Tag = v
 				}
 				for i, g := range groups {
@@ -449,7 +475,13 @@ func coqStep(st Step) string {
 }
 
 func coqOpInput(in Input) string {
-	return fmt.Sprintf("(mkOIn %s\n   %s)", coqQset(in.Queues, in.Q), core.CoqList(in.Steps, coqStep))
+	v0s := []int{}
+	for i, h := range in.Hooks {
+		if h.V0 {
+			v0s = append(v0s, i+1)
+		}
+	}
+	return fmt.Sprintf("(mkOIn %s %s\n   %s)", core.CoqList(v0s, core.CoqN), coqQsetWith(in.Queues, in.Q, coqFullTask), core.CoqList(in.Steps, coqStep))
 }
 
 func coqStepObs(in Input, o StepObs) string {
@@ -460,7 +492,7 @@ func coqStepObs(in Input, o StepObs) string {
 		if i < len(o.State) {
 			ts = o.State[i]
 		}
-		parts[i] = fmt.Sprintf("(%d, %s)", n, core.CoqList(ts, coqNamedTask))
+		parts[i] = fmt.Sprintf("(%d, %s)", n, core.CoqList(ts, coqFullTask))
 	}
 	return fmt.Sprintf("mkSO %s %s [%s]", runs, core.CoqBool(o.Success), joinSemi(parts))
 }
@@ -478,13 +510,57 @@ func renderOp(in Input, obs *Observation, crash string) core.Case {
 	c.Coq = fmt.Sprintf("COp %s\n  [%s]", coqOpInput(in), joinSemi(steps))
 	c.JSON = map[string]any{"steps": o.Steps, "note": o.Note, "crash": crash}
 	c.Key = coqOpInput(in)
-	c.Tags = append(c.Tags, "class:op", fmt.Sprintf("queues:%d", len(in.Queues)), fmt.Sprintf("tasks:%02d", len(in.Q)), fmt.Sprintf("steps:%d", len(in.Steps)))
+	c.Tags = append(c.Tags, "class:"+in.Kind, fmt.Sprintf("queues:%d", len(in.Queues)), fmt.Sprintf("tasks:%02d", len(in.Q)), fmt.Sprintf("steps:%d", len(in.Steps)))
+	// the queue contents before each step, as observed (before the first one: as given)
+	prev := make([][]Task, len(in.Queues))
+	for i, n := range in.Queues {
+		for _, t := range in.Q {
+			if t.Qn == n {
+				prev[i] = append(prev[i], t)
+			}
+		}
+	}
 	for i, st := range in.Steps {
 		tag := "step:" + st.Kind
 		if st.Fail {
 			tag += "-hook-fails"
 		}
 		c.Tags = append(c.Tags, tag)
+		if st.Kind == "head" && i < len(o.Steps) {
+			for k, n := range in.Queues {
+				if n != st.Qn || k >= len(prev) || len(prev[k]) == 0 || prev[k][0].Ty != 0 {
+					continue
+				}
+				h := prev[k][0]
+				kind := "schedule"
+				switch {
+				case len(h.Ctxs) > 0 && h.Ctxs[0].Sync && h.Group == 0:
+					kind = "sync-ungrouped"
+				case len(h.Ctxs) > 0 && h.Ctxs[0].Sync:
+					kind = "sync-grouped"
+				case h.Kube:
+					kind = "kube-event"
+				}
+				if len(h.Ctxs) > 0 && h.Ctxs[0].Sync && !h.Exec {
+					kind += "-no-exec"
+				}
+				if h.Hook >= 1 && h.Hook <= len(in.Hooks) && in.Hooks[h.Hook-1].V0 {
+					kind += "-v0"
+				}
+				follower := ""
+				if len(prev[k]) > 1 && prev[k][1].Hook == h.Hook && prev[k][1].Ty == 0 {
+					follower = "+same-hook-follower"
+				}
+				if len(o.Steps[i].Runs) == 0 {
+					c.Tags = append(c.Tags, "head-not-executed:"+kind+follower)
+				} else {
+					c.Tags = append(c.Tags, "head-executed:"+kind+follower)
+				}
+			}
+		}
+		if i < len(o.Steps) && len(o.Steps[i].State) == len(prev) {
+			prev = o.Steps[i].State
+		}
 		if i < len(o.Steps) {
 			for _, r := range o.Steps[i].Runs {
 				if len(r.Ctxs) >= 2 {
@@ -537,6 +613,8 @@ func (g *gen) opSession() Input {
 		}
 		if t.Ty == 1 {
 			t.Ctxs = []Ctx{}
+		} else {
+			t.Group = t.Ctxs[0].Group // Group: info.Group, the binding's group, as in its contexts
 		}
 		t.Qn = in.Queues[0]
 		if g.r.Chance(45) {
@@ -604,6 +682,12 @@ func (g *gen) opSession() Input {
 func OpCorpus() []Input {
 	var ins []Input
 	add := func(queues []int, steps []Step, q ...Task) {
+		q = append([]Task{}, q...)
+		for i := range q {
+			if q[i].Ty == 0 && len(q[i].Ctxs) > 0 {
+				q[i].Group = q[i].Ctxs[0].Group
+			}
+		}
 		ins = append(ins, Input{Kind: "op", Stop: []int{}, App: []Task{}, Queues: queues, Q: q, Steps: steps})
 	}
 	main3 := []Task{nt(1, 1, 1, 1, ctxs(10, 0)), nt(2, 1, 1, 1, ctxs(20, 0)), nt(3, 2, 1, 1, ctxs(30, 0))}
